@@ -220,7 +220,8 @@ impl DbInner {
 		let mut columns = Vec::with_capacity(metadata.columns.len());
 		let mut commit_overlay = Vec::with_capacity(metadata.columns.len());
 		let log = Log::open(options)?;
-		let last_enacted = log.replay_record_id().unwrap_or(2) - 1;
+		// A damaged log may claim record id 0: do not underflow.
+		let last_enacted = log.replay_record_id().unwrap_or(2).wrapping_sub(1);
 		for c in 0..metadata.columns.len() {
 			let column = Column::open(c as ColId, options, &metadata)?;
 			commit_overlay.push(CommitOverlay::new());
@@ -1084,11 +1085,11 @@ impl DbInner {
 				#[cfg(parity_db_verif)]
 				crate::verif::event("enact_begin", reader.record_id(), validation_mode as u64);
 				if validation_mode {
-					if reader.record_id() != self.last_enacted.load(Ordering::Relaxed) + 1 {
+					if reader.record_id() != self.last_enacted.load(Ordering::Relaxed).wrapping_add(1) {
 						log::warn!(
 							target: "parity-db",
 							"Log sequence error. Expected record {}, got {}",
-							self.last_enacted.load(Ordering::Relaxed) + 1,
+							self.last_enacted.load(Ordering::Relaxed).wrapping_add(1),
 							reader.record_id(),
 						);
 						drop(reader);
